@@ -17,7 +17,7 @@ theorem primsOK_of_rates (P : Params) (h : Nat) (R : Rel DB)
   subBal a t v _ := subBal_step_of P a t v (guarded_keep (·.rates) hkeep (fun _ => rfl)) (guarded_keep (·.rates) hkeep (fun _ => rfl))
   insertRate := hins
   insertHistBatch _ := guarded_keep (·.rates) hkeep (fun _ => rfl)
-  insertHistTx _ := guarded_keep (·.rates) hkeep (fun _ => rfl)
+  insertHistTx _ _ := guarded_keep (·.rates) hkeep (fun _ => rfl)
   insertLookup _ := guarded_keep (·.rates) hkeep (fun s => by split <;> rfl)
   setExecuted _ _ := guarded_keep (·.rates) hkeep (fun _ => rfl)
   setConvertedAmount _ _ _ := guarded_keep (·.rates) hkeep (fun _ => rfl)
@@ -40,7 +40,7 @@ theorem primsOK_of_rels (P : Params) (h : Nat) (R : Rel DB)
   subBal a t v _ := subBal_step_of P a t v (guarded_keep (·.rels) hkeep (fun _ => rfl)) (guarded_keep (·.rels) hkeep (fun _ => rfl))
   insertRate _ _ := guarded_keep (·.rels) hkeep (fun _ => rfl)
   insertHistBatch _ := guarded_keep (·.rels) hkeep (fun _ => rfl)
-  insertHistTx _ := guarded_keep (·.rels) hkeep (fun _ => rfl)
+  insertHistTx _ _ := guarded_keep (·.rels) hkeep (fun _ => rfl)
   insertLookup _ := guarded_keep (·.rels) hkeep (fun s => by split <;> rfl)
   setExecuted _ _ := guarded_keep (·.rels) hkeep (fun _ => rfl)
   setConvertedAmount _ _ _ := guarded_keep (·.rels) hkeep (fun _ => rfl)
@@ -63,7 +63,7 @@ theorem primsOK_of_addrs (P : Params) (h : Nat) (R : Rel DB)
   subBal a t v _ := hsub a t v
   insertRate _ _ := guarded_keep (·.addrs) hkeep (fun _ => rfl)
   insertHistBatch _ := guarded_keep (·.addrs) hkeep (fun _ => rfl)
-  insertHistTx _ := guarded_keep (·.addrs) hkeep (fun _ => rfl)
+  insertHistTx _ _ := guarded_keep (·.addrs) hkeep (fun _ => rfl)
   insertLookup _ := guarded_keep (·.addrs) hkeep (fun s => by split <;> rfl)
   setExecuted _ _ := guarded_keep (·.addrs) hkeep (fun _ => rfl)
   setConvertedAmount _ _ _ := guarded_keep (·.addrs) hkeep (fun _ => rfl)
